@@ -208,7 +208,7 @@ class Pipe:
         if self.blackhole:
             return
         now = self.conn.net.loop.time()
-        if now < self.hold_until:  # stalled after scheduling: re-schedule, keeping FIFO
+        if now < self.hold_until - 1e-9:  # stalled after scheduling: re-schedule, keeping FIFO
             t = self._next_time(0.0)
             entry[0] = t
             entry[2] = self.conn.net.loop.call_at(t, self._deliver, entry)
@@ -250,7 +250,7 @@ class Pipe:
         if self.blackhole:
             return
         now = self.conn.net.loop.time()
-        if now < self.hold_until:
+        if now < self.hold_until - 1e-9:
             self.conn.net.loop.call_at(self._next_time(0.0), self._deliver_eof)
             return
         dst = self.conn.endpoint_receiving(self.name)
@@ -333,6 +333,8 @@ class Connection:
         net.count("cut_" + cut.kind)
         net.trace("cut", self.index, cut.dir, cut.at, cut.kind)
         net.fired_cuts.append((net.loop.time(), cut))
+        if net.on_cut is not None:
+            net.on_cut(self, cut)
         if cut.kind == "STALL":
             until = net.loop.time() + cut.stall
             for p in (self.c2s, self.s2c):
@@ -445,6 +447,7 @@ class SimNet:
         self.events: list[tuple[Any, ...]] = []
         self.on_wire: Callable[[Connection, str, bytes], None] | None = None
         self.on_accept: Callable[[Connection], None] | None = None
+        self.on_cut: Callable[[Connection, Cut], None] | None = None
         self.connect_log: list[tuple[float, Any, str]] = []
         self.policy_factory: Callable[[int, str], Policy] = self._default_policy
         self.connect_delay = (0.0002, 0.002)
@@ -518,7 +521,7 @@ class SimNet:
             raise TimeoutError(110, "Connection timed out")
         await asyncio.sleep(rtt)
         if mode == "refuse":
-            if addr[0] == "unix":
+            if addr[0] == "unix" and st is None:
                 raise FileNotFoundError(2, "No such file or directory")
             raise ConnectionRefusedError(111, "Connection refused")
         assert st is not None and srv is not None
